@@ -1,0 +1,97 @@
+//go:build verif
+
+// Machine-checked contracts for package ech, read by /verif/engine (govc).
+// This file contains no declarations: with the build tag off it is not compiled,
+// with the tag on it adds nothing to the package. Syntax: see /verif/DESIGN.md 1.3.
+package ech
+
+// ---------------------------------------------------------------------------
+// config.go
+// ---------------------------------------------------------------------------
+
+//@ func parseConfig returns (out, err)
+//@   requires s != nil
+//@   modifies *s
+//@   terminates
+//@   ensures[T:consumes] err == nil ==> len(*s) < old(len(*s))
+//@   ensures[F:within-input] sameArray(*s, old(*s)) && offset(*s) + len(*s) == old(offset(*s) + len(*s)) && len(*s) <= old(len(*s))
+//@   loop 1 "!cs.Empty()"
+//@     decreases len(cs)
+
+//@ func ParseConfigList returns (list, err)
+//@   terminates
+//@   loop 1 "!ss.Empty()"
+//@     decreases len(ss)
+
+//@ func Config.Spec returns (out, err)
+//@   terminates
+
+// ---------------------------------------------------------------------------
+// shared vocabulary
+// ---------------------------------------------------------------------------
+
+//@ pure be16(s []byte, o int) int = int(s[o])*256 + int(s[o+1])
+//@ pure be24(s []byte, o int) int = int(s[o])*65536 + int(s[o+1])*256 + int(s[o+2])
+//@ pure MAXREC() int = 16384 + 256
+
+// ---------------------------------------------------------------------------
+// tls.go
+// ---------------------------------------------------------------------------
+
+//@ func readRecord returns (rec, err)
+//@   requires conn != nil
+//@   modifies rpos(conn)
+//@   ensures[S:complete] err == nil ==> len(rec) >= 5 && len(rec) == 5 + be16(rec, 3)
+//@   ensures[F:consumed] len(rec) == rpos(conn) - old(rpos(conn))
+//@   ensures[F:content] forall(k, 0, len(rec), rec[k] == inAt(conn, old(rpos(conn)) + k))
+//@   ensures[S:size] len(rec) <= 5 + MAXREC() && cap(rec) <= 5 + MAXREC()
+//@   ensures[F:legal-length] err != nil && is(err, ErrDecodeError) ==> len(rec) == 5 && be16(rec, 3) > MAXREC()
+//@   ensures[F:errclass] err != nil && !is(err, ErrDecodeError) ==> liberr(err)
+
+//@ func convertErrorsToAlerts
+//@   inline
+//@ func sendAlert
+//@   inline
+
+// ---------------------------------------------------------------------------
+// client_hello.go / server_hello.go
+// ---------------------------------------------------------------------------
+
+// echInv: what parseExtensions establishes about the ECH extension(s); needed by marshal(aad).
+//@ pure echInv(c *clientHello) bool = forall(i, 0, len(c.Extensions), c.Extensions[i].Type == 0xfe0d ==> c.echExt != nil && len(c.echExt.Payload) <= len(c.Extensions[i].Data))
+
+//@ func clientHello.Marshal
+//@   inline
+//@ func clientHello.marshalAAD
+//@   inline
+
+//@ func clientHello.marshal returns (out, err)
+//@   requires c != nil
+//@   requires aad ==> echInv(c)
+//@   terminates
+//@   ensures[F:errclass] err != nil ==> liberr(err) && isnil(out)
+//@   ensures[S:size] err == nil ==> len(out) >= 9 && len(out) <= 5 + 65535
+
+//@ func clientHello.parseExtensions returns (err)
+//@   requires c != nil
+//@   modifies c.ServerName, c.ALPNProtos, c.hasECHOuterExtensions, c.tls13, c.echExt
+//@   allocates echExt
+//@   terminates
+//@   ensures[S:echinv] err == nil ==> echInv(c)
+//@   ensures[F:errclass] err != nil ==> is(err, ErrDecodeError) || is(err, ErrIllegalParameter)
+//@   loop 1 "range c.Extensions"
+//@     invariant[no-ech-yet] c.echExt == nil ==> forall(i, 0, ri1, c.Extensions[i].Type != 0xfe0d)
+//@     invariant[payload-fits] c.echExt != nil ==> forall(i, 0, ri1, c.Extensions[i].Type == 0xfe0d ==> len(c.echExt.Payload) <= len(c.Extensions[i].Data))
+
+//@ func parseClientHello returns (hello, err)
+//@   allocates clientHello, echExt
+//@   terminates
+//@   ensures[S:nonnil] err == nil ==> hello != nil && fresh(hello) && echInv(hello)
+//@   ensures[F:nilerr] err != nil ==> hello == nil
+//@   ensures[F:errclass] err != nil ==> is(err, ErrDecodeError) || is(err, ErrIllegalParameter) || is(err, ErrUnexpectedMessage)
+
+//@ func parseServerHello returns (hello, err)
+//@   allocates serverHello
+//@   terminates
+//@   ensures[S:nonnil] err == nil ==> hello != nil && fresh(hello)
+//@   ensures[F:errclass] err != nil ==> is(err, ErrDecodeError) || is(err, ErrUnexpectedMessage)
